@@ -49,6 +49,8 @@ struct Ctx<'a> {
     cl0: Cl,
     no_conn: Vec<bool>,
     cap: usize,
+    /// connection-less target t answers retrysym::pool_errors()[(t + pool_rot) % len]
+    pool_rot: usize,
 }
 
 impl Ctx<'_> {
@@ -76,7 +78,7 @@ impl Ctx<'_> {
     }
     fn case_json(&self, script: &[usize]) -> Value {
         json!({"leg":"loop","mode": match self.mode { Mode::Real(p) => p.name(), Mode::Scripted => "scripted" },
-               "idempotent": self.idem, "cl0": self.cl0.name(), "no_conn": self.no_conn,
+               "idempotent": self.idem, "cl0": self.cl0.name(), "no_conn": self.no_conn, "pool_rot": self.pool_rot,
                "script": script.iter().map(|&s| self.sym_name(s)).collect::<Vec<_>>()})
     }
 }
@@ -107,6 +109,12 @@ fn run_case(cx: &Ctx, script: &[usize]) -> Obs {
         request_timeout: None,
         history_listener: None,
         targets: cx.no_conn.iter().map(|n| !n).collect(),
+        pool_errors: {
+            let mut v = retrysym::pool_errors();
+            let n = v.len();
+            v.rotate_left(cx.pool_rot % n);
+            v
+        },
     };
     let attempts: RefCell<Vec<(usize, Cl)>> = RefCell::new(Vec::new());
     let wanted_more = RefCell::new(false);
@@ -187,7 +195,10 @@ fn judge(cx: &Ctx, script: &[usize], o: &Obs) -> Vec<(String, String)> {
                 (LoopOutcome::Success { attempt }, ExecResult::Completed { coordinator, token }) => *coordinator == o.attempts[*attempt].0 && *token == format!("attempt{attempt}"),
                 (LoopOutcome::IgnoredWrite { attempt }, ExecResult::IgnoredWriteError { coordinator }) => *coordinator == o.attempts[*attempt].0,
                 (LoopOutcome::LastAttemptError { attempt }, ExecResult::Err(RequestError::LastAttemptError(e))) => format!("{e:?}") == format!("{:?}", cx.error_of(script[*attempt], *attempt)),
-                (LoopOutcome::PoolError { .. }, ExecResult::Err(RequestError::ConnectionPoolError(_))) => true,
+                (LoopOutcome::PoolError { target }, ExecResult::Err(RequestError::ConnectionPoolError(e))) => {
+                    let pe = retrysym::pool_errors();
+                    format!("{e:?}") == format!("{:?}", pe[(*target + cx.pool_rot) % pe.len()])
+                }
                 (LoopOutcome::EmptyPlan, ExecResult::Err(RequestError::EmptyPlan)) => true,
                 _ => false,
             };
@@ -332,7 +343,7 @@ fn replay(r: &Report, syms: &[Sym], case: &Value) {
     let cl0 = Cl::ALL.into_iter().find(|c| Some(c.name()) == case["cl0"].as_str()).unwrap_or_else(|| vcore::machinery_error("replay: bad cl0"));
     let no_conn: Vec<bool> = case["no_conn"].as_array().map(|a| a.iter().map(|v| v.as_bool().unwrap_or(false)).collect()).unwrap_or_default();
     let mv = retrysym::MinViolations::default();
-    let cx = Ctx { r, mv: &mv, syms, mode, idem: case["idempotent"].as_bool().unwrap_or(false), cl0, no_conn, cap: 99 };
+    let cx = Ctx { r, mv: &mv, syms, mode, idem: case["idempotent"].as_bool().unwrap_or(false), cl0, no_conn, cap: 99, pool_rot: case["pool_rot"].as_u64().unwrap_or(0) as usize };
     let script: Vec<usize> = case["script"]
         .as_array()
         .unwrap_or_else(|| vcore::machinery_error("replay: no script"))
@@ -355,10 +366,13 @@ fn main() {
     if let Err(e) = cqlref::retry::self_test() {
         vcore::machinery_error(&format!("cqlref::retry self-test failed: {e}"));
     }
-    // full 64-symbol alphabet for plans up to `full_p` targets, the 12-class alphabet for longer plans
+    // enlarged alphabet (one symbol per variant of every non-database family) for plans up to `ext_p` targets, the
+    // 64-symbol alphabet up to `full_p`, the 14-class alphabet for longer plans
+    let syms_ext = retrysym::extended_alphabet();
     let syms_full = retrysym::alphabet();
     let syms_class = retrysym::class_alphabet();
-    let syms = retrysym::alphabet();
+    let syms = retrysym::extended_alphabet();
+    let n_pool = retrysym::pool_errors().len();
     if let Some(case) = r.replay_case() {
         replay(&r, &syms, &case);
         r.finish_replay();
@@ -366,6 +380,7 @@ fn main() {
     let thorough = r.tier().is_thorough();
     let max_p = r.args.extra_value("--max-p").and_then(|s| s.parse().ok()).unwrap_or(r.tier().pick(4usize, 5usize));
     let full_p = r.args.extra_value("--full-p").and_then(|s| s.parse().ok()).unwrap_or(r.tier().pick(3usize, 4usize));
+    let ext_p = r.args.extra_value("--ext-p").and_then(|s| s.parse().ok()).unwrap_or(r.tier().pick(2usize, 3usize));
     let cls: Vec<Cl> = if thorough { Cl::ALL.to_vec() } else { vec![Cl::Quorum, Cl::EachQuorum, Cl::One, Cl::LocalSerial] };
     let mut items = Vec::new();
     for mode in [Mode::Real(Policy::Default), Mode::Real(Policy::Downgrading), Mode::Real(Policy::Fallthrough), Mode::Scripted] {
@@ -377,10 +392,22 @@ fn main() {
                 for p in 0..=max_p {
                     for mask in 0..(1u32 << p) {
                         let no_conn: Vec<bool> = (0..p).map(|t| mask >> t & 1 == 1).collect();
-                        let n_first = 1 + if mode == Mode::Scripted { SCRIPTED.len() } else if p <= full_p { syms_full.len() } else { syms_class.len() };
-                        for s in 0..n_first {
-                            for s1 in 0..n_first {
-                                items.push((mode, idem, cl0, no_conn.clone(), s, s1));
+                        let n_first = 1 + if mode == Mode::Scripted {
+                            SCRIPTED.len()
+                        } else if p <= ext_p {
+                            syms_ext.len()
+                        } else if p <= full_p {
+                            syms_full.len()
+                        } else {
+                            syms_class.len()
+                        };
+                        // which ConnectionPoolError variant a connection-less target answers: every rotation for short plans
+                        let rots = if mask != 0 && p <= ext_p { n_pool } else { 1 };
+                        for rot in 0..rots {
+                            for s in 0..n_first {
+                                for s1 in 0..n_first {
+                                    items.push((mode, idem, cl0, no_conn.clone(), rot, s, s1));
+                                }
                             }
                         }
                     }
@@ -392,14 +419,20 @@ fn main() {
     let r_ref = &r;
     let mv = retrysym::MinViolations::default();
     let mv_ref = &mv;
-    vcore::par::for_each(r.args.jobs, 4, items.into_iter(), |(mode, idem, cl0, no_conn, s, s1)| {
+    vcore::par::for_each(r.args.jobs, 4, items.into_iter(), |(mode, idem, cl0, no_conn, pool_rot, s, s1)| {
         let p = no_conn.len();
-        let syms_ref = if p <= full_p { &syms_full[..] } else { &syms_class[..] };
+        let syms_ref = if p <= ext_p {
+            &syms_ext[..]
+        } else if p <= full_p {
+            &syms_full[..]
+        } else {
+            &syms_class[..]
+        };
         let cap = match mode {
             Mode::Real(_) => p + 3,
             Mode::Scripted => (p + 3).min(r_ref.tier().pick(5, 6)),
         };
-        let cx = Ctx { r: r_ref, mv: mv_ref, syms: syms_ref, mode, idem, cl0, no_conn, cap };
+        let cx = Ctx { r: r_ref, mv: mv_ref, syms: syms_ref, mode, idem, cl0, no_conn, cap, pool_rot };
         let mut acc = Acc::default();
         // work is split by the first two symbols: the one-symbol run is judged and counted by the item with s1 == 0
         let mut script = vec![s];
@@ -434,7 +467,7 @@ fn main() {
             vcore::machinery_error(&format!("vacuity: result kind {kind} never occurred in scripted mode"));
         }
     }
-    r.set_rule(&format!("E-ENUM over the on-demand script tree through hook H-EXEC (real run_request_no_side_effects + run_request_speculative_fiber, no speculative policy): plan length 0..={max_p} x every subset of targets without a connection x idempotent flag x initial consistency x (3 real policies with a 12-class failure alphabet + success | scripted policy with 6 decisions + success); a script prefix is extended by every symbol exactly when the loop asks for another attempt (depth cap p+3). evaluations = states = runs (script prefixes), transitions = attempts executed, traces_validated = runs whose parent prefix observation was reproduced as a prefix. distinct_nontrivial = completed runs with >= 2 attempts."));
+    r.set_rule(&format!("E-ENUM over the on-demand script tree through hook H-EXEC (real run_request_no_side_effects + run_request_speculative_fiber, no speculative policy): plan length 0..={max_p} x every subset of targets without a connection (answering every ConnectionPoolError variant, all rotations for short plans) x idempotent flag x initial consistency x (3 real policies with the enlarged / 64-symbol / 14-class failure alphabet by plan length + success | scripted policy with 6 decisions + success); a script prefix is extended by every symbol exactly when the loop asks for another attempt (depth cap p+3). evaluations = states = runs (script prefixes), transitions = attempts executed, traces_validated = runs whose parent prefix observation was reproduced as a prefix. distinct_nontrivial = completed runs with >= 2 attempts."));
     r.set_exhaustive(true);
     r.note("class_alphabet", json!(syms.iter().map(|s| s.name.clone()).collect::<Vec<_>>()));
     r.note("max_plan_length", json!(max_p));
